@@ -59,7 +59,13 @@ def run_scn(scn, on_step):
             return [[c.timestamp, c.open, c.high, c.low, c.close, c.volume] for c in cs]
         return cs
 
-    m = CandleManager(mk(0, init), **cm.mgr_kwargs(scn.get("tf"), scn.get("fill", False), scn.get("ha", False), scn.get("life")))
+    kwargs = cm.mgr_kwargs(scn.get("tf"), scn.get("fill", False), scn.get("ha", False), scn.get("life"))
+    if scn.get("tf_enum") and kwargs.get("timeframe"):
+        # the same timeframe given as a member of the public TimeFrame enum (where one exists) instead of its string
+        from hexital.utils.timeframe import TimeFrame
+
+        kwargs["timeframe"] = next((m_ for m_ in TimeFrame if m_.value == str(kwargs["timeframe"]).upper()), kwargs["timeframe"])
+    m = CandleManager(mk(0, init), **kwargs)
     r = on_step(0, m, init)
     if r:
         return r
@@ -184,6 +190,8 @@ def gen_scn(rng, tf=True, fill=False, ha=False, life=False, size=60):
     if rng.random() < 0.3:
         scn["preread"] = True
         meta["preread"] = True
+    if tfv and rng.random() < 0.3:
+        scn["tf_enum"] = True
     if tzoff is not None and stream and all(t[0] is not None for t in stream):
         scn["tzoff"] = tzoff   # aware stamps, fixed UTC offset: buckets align to the wall clock of the stamps' own zone
         meta["aware"] = True
